@@ -1284,7 +1284,10 @@ def pacc_joined(E, st, first, rest):
         lr = z3.simplify(seq_length(E, st, zbytes(rest)))
         lf = z3.simplify(seq_length(E, st, zbytes(first)))
         p = z3.IntVal(256 ** lr.as_long()) if z3.is_int_value(lr) and lr.as_long() <= 4096 else ops.pow2(E, st, 8 * lr)
-        if z3.is_int_value(lf) and lf.as_long() <= 16:
+        zf = zbytes(first)
+        if z3.is_app(zf) and zf.decl().kind() == z3.Z3_OP_UNINTERPRETED:
+            bf = BE(zf)                     # e.g. i2osp(x, k) from struct.pack under pack_uf: its value is a fact already
+        elif z3.is_int_value(lf) and lf.as_long() <= 16:
             bf = z3.IntVal(0)
             for i in range(lf.as_long()):
                 bf = bf * 256 + ops.byte_int(E, st, zbytes(first)[i])
@@ -1722,6 +1725,15 @@ def x_struct_pack(E, st, a, k):
         cur = ok
         if size == 1 and E.options.get('int_bytes'):
             parts.append(byte_unit(E, cur, x))
+            continue
+        if E.options.get('pack_uf') and order == 'big' and size > 1:
+            # opt-in: the packed field as the uninterpreted i2osp(x, size) with its defining facts (length, big-endian value)
+            # instead of `size` explicit digit terms: proofs that only need the VALUE of the chunk stay free of digit arithmetic
+            t = I2OSP(x, z3.IntVal(size))
+            cur.fact(z3.Length(t) == size)
+            cur.fact(BE(t) == x)
+            cur.fact(BE(t) >= 0)
+            parts.append(t)
             continue
         parts.append(i2osp_value(E, cur, x, size, little=(order == 'little')))
     outs.append(('val', cur, mk_bytes(parts[0] if len(parts) == 1 else z3.Concat(*parts))))
